@@ -1042,4 +1042,122 @@ theorem rollback_rel (hOwn : OwnW c w addrs) (hCV : ∀ blk, CredVal c P T blk) 
 
 end rb
 
+-- ------------------------------------------------------------------ disconnectBlock: SubW in, SubW out
+
+open MW.Lemmas.RemoveKeep in
+/-- ghost-side facts a rollback below the floor uses: a credit pays the address of the output it records -/
+def GhostCV (c : Ctx) (g : Store) : Prop :=
+  ∀ id blk i cr loc tx o, AMap.get g.credits ⟨id, blk, i⟩ = some cr → AMap.get g.txrecs (id, blk) = some loc →
+    c.node.txByFileLoc loc = some tx → tx.outs[i]? = some o → cr.sh = o.addr
+
+open MW.Lemmas.RemoveKeep in
+/-- **ONE DISCONNECTED BLOCK, relaxed relation, no `NewEq`.**  `g` follows the chain up to height `h` (its tip), `s` is
+    `g` minus records of `w` (`SubW`), every credit / debit left in `s` has its tx record (`Reach`: the D45 repair keeps
+    it, `MW.Lemmas.RemoveKeep.removeStep_reach`).  If `disconnectBlock` succeeds on both stores, the results are related
+    again; and `Reach` of the new real store follows from `Reach` of the new ghost. -/
+theorem disconnectBlock_rel {c : Ctx} {w : Wid} {addrs : List Addr} {g s g' s' : Store} {h : Nat}
+    (hOwn : OwnW c w addrs) (hSub : SubW w addrs g s) (hR : Reach s) (hCV : GhostCV c g) (hh : g.syncedTo = h)
+    (hg : disconnectBlock c g h = .ok g') (hs : disconnectBlock c s h = .ok s') :
+    SubW w addrs g' s' ∧ (Reach g' → Reach s') := by
+  unfold disconnectBlock at hg hs
+  by_cases h0 : h = 0
+  · rw [if_pos h0] at hg; cases hg
+  rw [if_neg h0] at hg hs
+  have hlt : ¬ h > g.syncedTo := by rw [hh]; exact Nat.lt_irrefl h
+  rw [if_neg hlt] at hg
+  rw [hSub.syncedTo, if_neg hlt] at hs
+  obtain ⟨g1, h1, h2⟩ := M_bind_ok hg
+  obtain ⟨s1, k1, k2⟩ := M_bind_ok hs
+  cases h2; cases k2
+  have hreal : ∀ ck : CredKey, AMap.get s.txrecs (ck.tx, ck.blk) = none →
+      AMap.get s.credits ck = none ∧ AMap.get s.debits ck = none := by
+    intro ck hn
+    constructor
+    · cases e : AMap.get s.credits ck with
+      | none => rfl
+      | some cr => have := hR.credits ck cr e; rw [hn] at this; cases this
+    · cases e : AMap.get s.debits ck with
+      | none => rfl
+      | some d => have := hR.debits ck d e; rw [hn] at this; cases this
+  have h0' : WR w addrs (fun k sh => ∃ cr, AMap.get g.credits k = some cr ∧ cr.sh = sh)
+      (fun k loc => AMap.get g.txrecs k = some loc) (fun k => AMap.get s.txrecs k = none) g.blocks s.blocks g s :=
+    ⟨⟨hSub.unspent, hSub.game, hSub.adr⟩,
+      ⟨hSub.credits, fun k cr hc => ⟨cr, hc, rfl⟩, hSub.debits, hSub.debGone, hSub.txrecs, fun _ _ hl => hl,
+        fun _ hn => Or.inr hn, fun _ hN => hN, hreal⟩,
+      ⟨hSub.sync, hSub.syncedTo, hSub.status, hSub.balance, rfl, rfl⟩⟩
+  have hCV' : ∀ blk, CredVal c (fun k sh => ∃ cr, AMap.get g.credits k = some cr ∧ cr.sh = sh)
+      (fun k loc => AMap.get g.txrecs k = some loc) blk := by
+    intro blk id loc tx hT hl i sh o hP ho
+    obtain ⟨cr, hc, hsh⟩ := hP
+    rw [← hsh]
+    exact hCV id blk i cr loc tx o hc hT hl ho
+  obtain ⟨q1, q2, q3, q4, q5, q6, q7, q8⟩ := rollback_rel hOwn hCV' h0' hh (blkRelN_of_blkRel (hSub.blocks h)) h1 k1
+  have hsub' : SubW w addrs
+      { resetSyncedTo g1 (h - 1) with status := (resetSyncedTo g1 (h - 1)).status.map (fun e =>
+          match e.2.synced with
+          | some h' => if h' > h - 1 then (e.1, { e.2 with synced := some (h - 1) }) else e
+          | none => e) }
+      { resetSyncedTo s1 (h - 1) with status := (resetSyncedTo s1 (h - 1)).status.map (fun e =>
+          match e.2.synced with
+          | some h' => if h' > h - 1 then (e.1, { e.2 with synced := some (h - 1) }) else e
+          | none => e) } := by
+    refine ⟨q1.unspent, q1.game, q1.adr, q6, ?_, ?_, ?_, q2.cred, q2.deb, q2.debGone, q2.txS, ?_⟩
+    · show (resetSyncedTo s1 (h - 1)).sync = (resetSyncedTo g1 (h - 1)).sync
+      unfold resetSyncedTo; dsimp only; rw [q3, q4]
+    · show (resetSyncedTo s1 (h - 1)).syncedTo = (resetSyncedTo g1 (h - 1)).syncedTo
+      unfold resetSyncedTo; dsimp only; rw [q4]
+    · show List.map _ s1.status = List.map _ g1.status
+      rw [q5]
+    · intro h'
+      show BlkRel _ h' (AMap.get g1.blocks h') (AMap.get s1.blocks h')
+      rw [q7, q8]
+      by_cases e : h' = h
+      · rw [if_pos e, if_pos e]; rfl
+      · rw [if_neg e, if_neg e]
+        have hb := hSub.blocks h'
+        cases hgb : AMap.get g.blocks h' with
+        | none => rw [hgb] at hb; exact hb
+        | some r =>
+          obtain ⟨bh, txs⟩ := r
+          rw [hgb] at hb
+          obtain ⟨p, hp, hv⟩ := hb
+          exact ⟨p, fun id hid => q2.nTx _ (hp id hid), hv⟩
+  refine ⟨hsub', ?_⟩
+  intro hRg
+  have key : ∀ k : TxId × BlockMeta, AMap.get s1.txrecs k = none → AMap.get g1.txrecs k = none ∨
+      AMap.get s.txrecs k = none := q2.txN
+  constructor
+  · intro ck cr hc
+    show (AMap.get s1.txrecs (ck.tx, ck.blk)).isSome = true
+    cases e : AMap.get s1.txrecs (ck.tx, ck.blk) with
+    | some _ => rfl
+    | none =>
+      exfalso
+      have hc' : AMap.get s1.credits ck = some cr := hc
+      rcases key _ e with e1 | e1
+      · have hgc : AMap.get g1.credits ck = some cr := by
+          rcases q2.cred ck with e2 | ⟨e2, _⟩
+          · rw [← e2]; exact hc'
+          · rw [hc'] at e2; cases e2
+        have this : (AMap.get g1.txrecs (ck.tx, ck.blk)).isSome = true := hRg.credits ck cr hgc
+        rw [e1] at this
+        cases this
+      · rw [(q2.noRec ck e1).1] at hc'; cases hc'
+  · intro dk d hd
+    show (AMap.get s1.txrecs (dk.tx, dk.blk)).isSome = true
+    cases e : AMap.get s1.txrecs (dk.tx, dk.blk) with
+    | some _ => rfl
+    | none =>
+      exfalso
+      have hd' : AMap.get s1.debits dk = some d := hd
+      rcases key _ e with e1 | e1
+      · have hgd : AMap.get g1.debits dk = some d := by
+          rcases q2.deb dk with e2 | e2
+          · rw [← e2]; exact hd'
+          · rw [hd'] at e2; cases e2
+        have this : (AMap.get g1.txrecs (dk.tx, dk.blk)).isSome = true := hRg.debits dk d hgd
+        rw [e1] at this
+        cases this
+      · rw [(q2.noRec dk e1).2] at hd'; cases hd'
+
 end MW.Lemmas.RemoveSimW
